@@ -80,7 +80,11 @@ FamComplete ==
       S5 == { One(Plain(n, t, mc[1], mc[2], 0), "VerifyOnly") :
                 n \in {1, 4, 64}, t \in {1, 6}, mc \in {<<16, 16>>, <<16, 64>>, <<32, 32>>, <<64, 64>>, <<1, 64>>, <<2, 128>>} }
          \cup { One(Plain(1, 1, mc[1], mc[2], 0), "VerifyOnly") : mc \in {<<256, 256>>, <<512, 512>>, <<512, 1024>>} }
-  IN S1 \cup S2 \cup S3 \cup {s \in S4 : s.members[1].zb <= s.members[1].m} \cup S5
+      \* the same opening at two adjacent positions (one commitment point twice in one statement), with promises on either or both
+      S6 == { One([Member(n, t, m, m, "mid", "mid", 0, "none", ps, j, 0, 0, "chacha") EXCEPT !.eqb = j], mode) :
+                n \in {4, 64}, t \in {1, 2}, m \in {2, 4}, j \in 2..4, ps \in {"none", "lt", "eq"}, mode \in {"VerifyOnly", "RecoverAndVerify"} }
+            \cup { One([Member(n, 1, m, m, "mid", "mid", 0, "lt", "eq", j, 0, 0, "chacha") EXCEPT !.eqb = j], "VerifyOnly") : n \in {4, 64}, m \in {2, 4}, j \in 2..4 }
+  IN S1 \cup S2 \cup S3 \cup {s \in S4 : s.members[1].zb <= s.members[1].m} \cup S5 \cup {s \in S6 : s.members[1].eqb <= s.members[1].m}
 
 (***************************************************************************************************)
 (* witness (C06): every single violation of the witness relation at every position                  *)
@@ -285,6 +289,7 @@ FamCapacity ==
       Mixed == { Scen(<<[Plain(n, 1, m1, c1, 0) EXCEPT !.v.cap = c1v], [Plain(n, 1, m2, c2, 0) EXCEPT !.v.cap = c2v], Plain(n, 1, 1, c3, 0)>>, "VerifyOnly", NoSkew, FALSE) :
                    n \in {2, 8}, m1 \in {1, 2, 4}, m2 \in {1, 4}, c1 \in {4, 8}, c1v \in {4, 16}, c2 \in {4, 16}, c2v \in {4, 8}, c3 \in {1, 32} }
       Big == { One([Plain(64, 1, m, cp, 0) EXCEPT !.v.cap = cv], "VerifyOnly") : m \in {1, 2}, cp \in {2, 64}, cv \in {2, 64, 128} }
+         \cup { One([Plain(n, 1, m, cp, 0) EXCEPT !.v.cap = cv], "VerifyOnly") : n \in {4}, m \in {2, 4, 64}, cp \in {128, 256}, cv \in {64, 128, 512} }
          \cup { Scen(<<Plain(64, 1, m1, c1, 0), Plain(64, 1, m2, c2, 0)>>, "VerifyOnly", NoSkew, FALSE) :
                    m1 \in {1, 2}, c1 \in {1, 2, 64}, m2 \in {1, 2}, c2 \in {2, 64} }
   IN {s \in Single \cup Big : \A x \in 1..Len(s.members) : s.members[x].cap >= s.members[x].m /\ s.members[x].v.cap >= s.members[x].m} \cup Mixed
